@@ -128,9 +128,33 @@ def arr_ite(c, a, b):
                 z3.If(c, a.own, b.own))
 
 
+class SDType:
+    """a NumPy dtype chosen by a data-dependent conditional expression: only its complexness is tracked"""
+
+    def __init__(self, cplx):
+        self.cplx = cplx
+
+
+def dtype_cplx(x):
+    """complexness of a dtype value ('complex', ('type', 'float'), SDType, ...) as a z3 Bool, or None if x is no dtype"""
+    if isinstance(x, SDType):
+        return x.cplx
+    if isinstance(x, tuple) and len(x) == 2 and x[0] == 'type' and isinstance(x[1], str):
+        x = x[1]
+    if isinstance(x, str):
+        x = x.replace('np.', '')
+        if x in ('complex', 'complex128', 'complex64', 'cdouble'):
+            return z3.BoolVal(True)
+        if x in ('float', 'float64', 'float32', 'double', 'int', 'int64', 'int32'):
+            return z3.BoolVal(False)
+    return None
+
+
 def val_ite(c, a, b):
     if a is b:
         return a
+    if dtype_cplx(a) is not None and dtype_cplx(b) is not None:
+        return SDType(z3.simplify(z3.If(zb(c), dtype_cplx(a), dtype_cplx(b))))
     if isinstance(a, SArr) and isinstance(b, SArr):
         return arr_ite(c, a, b)
     if isinstance(a, (int, z3.ExprRef)) and isinstance(b, (int, z3.ExprRef)) and not isinstance(a, bool) and not isinstance(b, bool):
